@@ -16,26 +16,54 @@ pub struct Scn {
     pub levels: usize,
     /// the calling act declares outputs
     pub declared: bool,
+    /// an interrupt act follows the calling act in the same step
+    pub follow: bool,
+    /// the client closes the calling act itself with this action while the child is still open
+    pub client_closes: Option<&'static str>,
 }
 
 pub fn scenarios(tier: Tier) -> Vec<Scn> {
     let mut v = vec![];
     for levels in [2usize, 3] {
-        for ending in ["complete", "error", "abort", "skip", "missing"] {
+        // "throw": the child fails by itself (a script that throws: an error raised by the engine, without a code)
+        for ending in ["complete", "error", "abort", "skip", "missing", "throw"] {
             for declared in [false, true] {
-                if declared && ending != "complete" {
-                    continue;
+                for follow in [false, true] {
+                    if (declared || follow) && (ending == "missing" || levels == 3) {
+                        continue;
+                    }
+                    if declared && follow {
+                        continue;
+                    }
+                    if tier == Tier::Quick && levels == 3 && !matches!(ending, "complete" | "error" | "missing") {
+                        continue;
+                    }
+                    v.push(Scn {
+                        id: format!("sub/{levels}-levels/{ending}{}{}", if declared { "/declared-outputs" } else { "" }, if follow { "/act-after-call" } else { "" }),
+                        ending,
+                        levels,
+                        declared,
+                        follow,
+                        client_closes: None,
+                    });
                 }
-                if tier == Tier::Quick && levels == 3 && !matches!(ending, "complete" | "error") {
-                    continue;
-                }
-                v.push(Scn {
-                    id: format!("sub/{levels}-levels/{ending}{}", if declared { "/declared-outputs" } else { "" }),
-                    ending,
-                    levels,
-                    declared,
-                });
             }
+        }
+    }
+    // the client closes the calling act under the running child; the child's ending arrives late
+    for closes in ["skip", "complete", "abort"] {
+        for ending in ["complete", "error", "abort"] {
+            if tier == Tier::Quick && closes == "complete" && ending != "abort" {
+                continue;
+            }
+            v.push(Scn {
+                id: format!("sub/2-levels/{ending}/client-{closes}s-the-call"),
+                ending,
+                levels: 2,
+                declared: false,
+                follow: false,
+                client_closes: Some(closes),
+            });
         }
     }
     v
@@ -45,18 +73,21 @@ fn models(sc: &Scn) -> Vec<String> {
     // parent: the call in one branch, an interrupt in the sibling branch
     let target = if sc.ending == "missing" && sc.levels == 2 { "nosuch" } else { "child" };
     let outs = if sc.declared { "                outputs:\n                  r:\n" } else { "" };
+    let follow = if sc.follow { "              - uses: acts.core.irq\n                key: fa\n" } else { "" };
+    // the innermost process: an interrupt, and in the "throw" variant a script that throws after it
+    let thrower = if sc.ending == "throw" { "      - uses: acts.transform.code\n        key: boom\n        params: \"throw new Error('boom')\"\n" } else { "" };
     let parent = format!(
-        "id: parent\noutputs:\n  r:\nsteps:\n  - id: s1\n    branches:\n      - id: b1\n        if: \"true\"\n        steps:\n          - id: s11\n            acts:\n              - uses: acts.core.subflow\n                key: call\n{outs}                params:\n                  to: {target}\n                  options:\n                    pid: c1\n                    a: abc\n                    b: 1\n      - id: b2\n        if: \"true\"\n        steps:\n          - id: s21\n            acts:\n              - uses: acts.core.irq\n                key: pa\n  - id: s2\n"
+        "id: parent\noutputs:\n  r:\nsteps:\n  - id: s1\n    branches:\n      - id: b1\n        if: \"true\"\n        steps:\n          - id: s11\n            acts:\n              - uses: acts.core.subflow\n                key: call\n{outs}                params:\n                  to: {target}\n                  options:\n                    pid: c1\n                    a: abc\n                    b: 1\n{follow}      - id: b2\n        if: \"true\"\n        steps:\n          - id: s21\n            acts:\n              - uses: acts.core.irq\n                key: pa\n  - id: s2\n"
     );
     let mut v = vec![parent];
     if sc.levels == 2 {
-        v.push("id: child\noutputs:\n  r:\ninputs:\n  r: 0\nsteps:\n  - id: cs1\n    acts:\n      - uses: acts.core.irq\n        key: ca\n".to_string());
+        v.push(format!("id: child\noutputs:\n  r:\ninputs:\n  r: 0\nsteps:\n  - id: cs1\n    acts:\n      - uses: acts.core.irq\n        key: ca\n{thrower}"));
     } else {
         let gt = if sc.ending == "missing" { "nosuch" } else { "grand" };
         v.push(format!(
             "id: child\noutputs:\n  r:\ninputs:\n  r: 0\nsteps:\n  - id: cs1\n    acts:\n      - uses: acts.core.subflow\n        key: call2\n        params:\n          to: {gt}\n          options:\n            pid: g1\n            a: abc\n            b: 1\n"
         ));
-        v.push("id: grand\noutputs:\n  r:\ninputs:\n  r: 0\nsteps:\n  - id: gs1\n    acts:\n      - uses: acts.core.irq\n        key: ca\n".to_string());
+        v.push(format!("id: grand\noutputs:\n  r:\ninputs:\n  r: 0\nsteps:\n  - id: gs1\n    acts:\n      - uses: acts.core.irq\n        key: ca\n{thrower}"));
     }
     v
 }
@@ -67,6 +98,17 @@ pub fn run_one(ch: &mut Chooser, sc: &Scn, want_log: bool) -> RunObs {
         sess.deploy(&m);
     }
     let _ = sess.start("parent", &vars_of(&json!({"pid": "p1"})));
+    let mut closed_by_client: Option<usize> = None;
+    if let Some(kind) = sc.client_closes {
+        // up to the point where the child waits for its answer, then the client acts on the calling act
+        sess.drain();
+        if let Some(tid) = sess.dump("p1").and_then(|d| d.tasks.iter().find(|t| t.key == "call" && t.kind == "act").map(|t| t.tid.clone())) {
+            let at = sess.w.trace_len();
+            if sess.act(kind, "p1", &tid, &acts::Vars::new()).is_ok() {
+                closed_by_client = Some(at);
+            }
+        }
+    }
     let mut answered: BTreeSet<String> = BTreeSet::new();
     let mut states = vec![];
     let mut steps = 0;
@@ -91,7 +133,7 @@ pub fn run_one(ch: &mut Chooser, sc: &Scn, want_log: bool) -> RunObs {
             let m = &open[c - acts.len()];
             let kind = if m.key == "ca" {
                 match sc.ending {
-                    "missing" => "complete",
+                    "missing" | "throw" => "complete",
                     e => e,
                 }
             } else {
@@ -163,7 +205,7 @@ pub fn run_one(ch: &mut Chooser, sc: &Scn, want_log: bool) -> RunObs {
             }
             Some((ci, chan, cmsg)) => {
                 if let Some((i, s)) = closes.first() {
-                    if i < ci {
+                    if i < ci && !(closed_by_client.is_some() && *caller == "p1") {
                         push(format!("closed-before-child-ended/{s}"), format!("{caller}:{key} was closed ({s}) before the terminal event of {callee}"));
                     }
                 }
@@ -184,13 +226,14 @@ pub fn run_one(ch: &mut Chooser, sc: &Scn, want_log: bool) -> RunObs {
                 }
                 .to_string();
                 if let Some((_, s)) = closes.first() {
-                    if *s != want {
+                    if *s != want && !(closed_by_client.is_some() && *caller == "p1") {
                         push(format!("mapped-state/{child_state}-as-{s}"), format!("{callee} ended {child_state} but {caller}:{key} was closed as {s}"));
                     }
                 }
                 // the parent's terminal event never precedes the child's
                 if let Some((pi, _, _)) = term_index(caller) {
-                    if pi < *ci {
+                    // (a client that closes the calling act itself has let the parent go on alone)
+                    if pi < *ci && !(closed_by_client.is_some() && *caller == "p1") {
                         push("parent-ended-before-child".into(), format!("the terminal event of {caller} precedes that of {callee}"));
                     }
                 }
@@ -198,13 +241,22 @@ pub fn run_one(ch: &mut Chooser, sc: &Scn, want_log: bool) -> RunObs {
                 if let Some(d) = sess.dump(caller) {
                     if let Some(t) = d.tasks.iter().find(|t| t.key == *key && t.kind == "act") {
                         let data: Value = serde_json::from_str(&t.data).unwrap_or_default();
-                        if child_state == "completed" && sc.ending == "complete" && data.get("r") != Some(&json!(5)) {
+                        if child_state == "completed" && sc.ending == "complete" && closed_by_client.is_none() && data.get("r") != Some(&json!(5)) {
                             push("outputs-not-returned".into(), format!("{callee} completed with r = 5 but the data of {caller}:{key} is {data}"));
                         }
-                        if child_state == "error" {
+                        if child_state == "error" && closed_by_client.is_none() {
+                            // the code and message of the child's own error event
+                            let cin = serde_json::to_value(&cmsg.inputs).unwrap_or_default();
+                            let (wc, wm) = (cin.get("ecode").cloned().unwrap_or(Value::Null), cin.get("message").cloned().unwrap_or(Value::Null));
                             let err: Value = t.err.as_ref().and_then(|e| serde_json::from_str(e).ok()).unwrap_or_default();
-                            if err.get("ecode") != Some(&json!("e7")) || err.get("message") != Some(&json!("child failed")) {
-                                push("error-not-forwarded".into(), format!("{callee} failed with e7 / 'child failed' but {caller}:{key} carries {err}"));
+                            if err.get("ecode") != Some(&wc) || err.get("message") != Some(&wm) {
+                                push("error-not-forwarded".into(), format!("{callee} failed with {wc} / {wm} but {caller}:{key} carries {err}"));
+                            }
+                            if sc.ending == "error" && *callee == (if sc.levels == 2 { "c1" } else { "g1" }) && (wc != json!("e7") || wm != json!("child failed")) {
+                                push("error-event-code".into(), format!("the client failed {callee} with e7 / 'child failed' but its error event carries {wc} / {wm}"));
+                            }
+                            if sc.ending == "throw" && !wm.as_str().unwrap_or("").contains("boom") {
+                                push("error-event-code".into(), format!("{callee} failed with a script error 'boom' but its error event carries {wc} / {wm}"));
                             }
                         }
                     }
@@ -228,6 +280,32 @@ pub fn run_one(ch: &mut Chooser, sc: &Scn, want_log: bool) -> RunObs {
             }
         }
         let _ = child_root_data;
+    }
+    // the act after the call in the same step: only after the call is closed, and once
+    if sc.follow {
+        let call_closed = trace.iter().position(|t| matches!(t, Tr::TaskEvent { pid, key, state, kind, .. } if pid == "p1" && key == "call" && kind == "act" && is_terminal_state(state)));
+        let fa: Vec<(usize, String)> = trace
+            .iter()
+            .enumerate()
+            .filter_map(|(i, t)| match t {
+                Tr::TaskEvent { pid, key, tid, kind, .. } if pid == "p1" && key == "fa" && kind == "act" => Some((i, tid.clone())),
+                _ => None,
+            })
+            .collect();
+        let mut tids: Vec<&String> = fa.iter().map(|(_, t)| t).collect();
+        tids.sort();
+        tids.dedup();
+        if let Some((i, _)) = fa.first() {
+            if call_closed.map(|c| *i < c).unwrap_or(true) {
+                push("successor-before-call-closed".into(), "the act after the calling act was started while the call was still open".into());
+            }
+        }
+        if tids.len() > 1 {
+            push(format!("successor-instances/{}", tids.len()), format!("the act after the calling act was instantiated {} times", tids.len()));
+        }
+        if !horizon && sc.ending == "complete" && tids.is_empty() {
+            push("successor-missing".into(), "the child completed but the act after the calling act never ran".into());
+        }
     }
     // the whole thing ends: the parent has a terminal event at quiescence
     if !horizon && term_index("p1").is_none() {
